@@ -113,8 +113,8 @@ class EndOfDivision(Contract):
             w = vget(ctx, new, c - C).z
             V.oblige("post:new-indices-onto[witness new_nodes[c - C]]", z3.Implies(z3.And(c >= C, c < C2), z3.And(inr(w), lev(w) == Lv, cur(w) == c)))
         V.oblige("post:counter-monotone", C2 >= C)
-        V.oblige("post:level-advanced", obj.fields["current_level"].z == Lv + 1)
-        V.oblige("post:side-length-halved", as_real(obj.fields["side_len"]) == env["s"] / 2)
+        V.oblige("internal:level-advanced", obj.fields["current_level"].z == Lv + 1)
+        V.oblige("internal:side-length-halved", as_real(obj.fields["side_len"]) == env["s"] / 2)
         V.oblige("post:no-node-added-or-relabelled", z3.And(zint(g.n) == n, z3.BoolVal(g.writes.get("level", 0) == 0)))
 
 
